@@ -19,6 +19,8 @@ def prepare():
         with open(lib, 'a') as f: f.write('\npub mod verif_access;\n')
         tour = os.path.join(SNAPR, 'solution', 'src', 'tour.rs')
         with open(tour, 'a') as f: f.write(open(os.path.join(inj, 'tour_tail.rs')).read())
+        swaps = os.path.join(SNAPR, 'solver', 'src', 'local_search', 'neighborhood', 'swaps.rs')
+        with open(swaps, 'a') as f: f.write(open(os.path.join(inj, 'swaps_tail.rs')).read())
         shutil.copy(os.path.join(SNAPR, 'Cargo.lock'), os.path.join(REPLAY, 'Cargo.lock'))
 
 def _stamp():
